@@ -6,6 +6,7 @@ func init() {
 		Technique:   "SSA summaries of filter processors (line unchanged, keep semantics), negation-sibling extraction from the matcher builders, truth tables of and/or, effect summaries",
 		Explanation: "Decides the structural clauses behind the filter algebra for all data: filters never change the line they keep (sub-multiset), a negated operator builds NotMatcher over the same positive matcher and NotMatcher.Match is `!` (partition), and/or keep iff both/either and the line survives or, string-matcher filters have no side effects (commutation/idempotence), each stage runs once per record.",
 		Decided: []string{
+			"FE-CLASS: ip() scan starts (shared with C01)",
 			"LP-CLASS: every filter stage returns its input line whenever it keeps the record",
 			"CH-POL / CH-MAP: OpNotEq/OpNotRe build NotMatcher[positive matcher] with the same arguments, for line, label and ip matchers; NotMatcher.Match negates; the four matcher bodies apply the operator to (subject, pattern)",
 			"FE-BOOL + LP-DROP: And keeps iff both, Or iff either; the right operand sees the input line or a kept line",
